@@ -317,7 +317,7 @@ Lemma log_serve_found c cs tbl ek rules path ops ret u r :
   log_serve c cs tbl ek rules path ops ret u =
   (fst s, if (400 <=? ret)%Z then 0%Z else ret, false,
    map (fun e => (n_id e, r_status (snd s), logged_size c (snd s)))
-       (filter (fun e => should_log cs (n_except e) path) (ru_entries r))).
+       (filter (fun e => should_log cs (n_except e) path) (matching_entries cs rules path))).
 Proof.
   intros Hf Hn. cbv zeta. unfold log_serve. rewrite Hf.
   rewrite (run_app c ops (u, rec0) (fallback tbl ek ret) Hn).
@@ -335,15 +335,30 @@ Proof.
   intro Hf. unfold log_serve. rewrite Hf. destruct (run c (u, rec0) ops) as [[u' r'] p]. reflexivity.
 Qed.
 
-(* ---- exactly one line per entry ------------------------------------------------------------ *)
+(* ---- exactly one line per entry of every matching rule ------------------------------------- *)
 Lemma count_id_app i a b : count_id i (a ++ b) = (count_id i a + count_id i b)%nat.
 Proof. unfold count_id. rewrite filter_app, app_length. reflexivity. Qed.
 
-Lemma count_id_none i (st : Z) (sz : N) (es : list entry) :
-  ~ In i (map n_id es) -> count_id i (map (fun e => (n_id e, st, sz)) es) = 0%nat.
+(* the entries that get a line, and how many of them carry a given id *)
+Definition logged (cs : bool) (path : bytes) (rules : list rule) : list entry :=
+  filter (fun e => should_log cs (n_except e) path) (matching_entries cs rules path).
+Definition idcount (j : nat) (es : list entry) : nat :=
+  length (filter (fun e => Nat.eqb (n_id e) j) es).
+
+Lemma count_id_map j (st : Z) (sz : N) es :
+  count_id j (map (fun e => (n_id e, st, sz)) es) = idcount j es.
+Proof.
+  induction es as [|e es IH]; [reflexivity|].
+  unfold count_id, idcount in *. simpl. destruct (Nat.eqb (n_id e) j); simpl; rewrite IH; reflexivity.
+Qed.
+
+Lemma idcount_app j a b : idcount j (a ++ b) = (idcount j a + idcount j b)%nat.
+Proof. unfold idcount. rewrite filter_app, app_length. reflexivity. Qed.
+
+Lemma idcount_none j es : ~ In j (map n_id es) -> idcount j es = 0%nat.
 Proof.
   induction es as [|e es IH]; intro H; [reflexivity|].
-  unfold count_id in *. simpl. destruct (Nat.eqb (n_id e) i) eqn:E.
+  unfold idcount in *. simpl. destruct (Nat.eqb (n_id e) j) eqn:E.
   - apply Nat.eqb_eq in E. exfalso. apply H. simpl. now left.
   - apply IH. intro Hin. apply H. simpl. now right.
 Qed.
@@ -354,42 +369,115 @@ Proof.
   apply in_map_iff. exists e. split; assumption.
 Qed.
 
-Lemma count_one_per_entry (g : entry -> bool) (st : Z) (sz : N) : forall es e,
-  NoDup (map n_id es) -> In e es ->
-  count_id (n_id e) (map (fun e => (n_id e, st, sz)) (filter g es)) = if g e then 1%nat else 0%nat.
+Lemma idcount_one (g : entry -> bool) : forall es e,
+  NoDup (map n_id es) -> In e es -> idcount (n_id e) (filter g es) = if g e then 1%nat else 0%nat.
 Proof.
   induction es as [|a es IH]; intros e Hnd Hin; [contradiction|].
   simpl in Hnd. inversion Hnd as [|x l Hna Hnd']. subst x l. destruct Hin as [->|Hin].
   - simpl. destruct (g e) eqn:Eg.
-    + simpl. unfold count_id. simpl. rewrite Nat.eqb_refl. simpl. f_equal.
-      apply (count_id_none (n_id e) st sz (filter g es)).
+    + unfold idcount. simpl. rewrite Nat.eqb_refl. simpl. f_equal.
+      apply (idcount_none (n_id e) (filter g es)).
       intro H. apply Hna. eapply filter_ids_subset. exact H.
-    + apply count_id_none. intro H. apply Hna. eapply filter_ids_subset. exact H.
+    + apply idcount_none. intro H. apply Hna. eapply filter_ids_subset. exact H.
   - assert (Hne : n_id a <> n_id e).
     { intro Heq. apply Hna. rewrite Heq. apply in_map. exact Hin. }
     simpl. destruct (g a).
-    + simpl. unfold count_id. simpl. apply Nat.eqb_neq in Hne. rewrite Hne. apply IH; assumption.
+    + unfold idcount. simpl. apply Nat.eqb_neq in Hne. rewrite Hne. apply IH; assumption.
     + apply IH; assumption.
 Qed.
 
-Lemma one_line_per_entry c cs tbl ek rules path ops ret u r :
-  find (fun r => path_matches cs path (ru_scope r)) rules = Some r ->
+Lemma logged_cons cs path r rs :
+  logged cs path (r :: rs) =
+  (if path_matches cs path (ru_scope r)
+   then filter (fun e => should_log cs (n_except e) path) (ru_entries r) else []) ++ logged cs path rs.
+Proof.
+  unfold logged, matching_entries. simpl. destruct (path_matches cs path (ru_scope r)); [|reflexivity].
+  simpl. apply filter_app.
+Qed.
+
+Lemma logged_ids_subset cs path : forall rules i,
+  In i (map n_id (logged cs path rules)) -> In i (map n_id (flat_map ru_entries rules)).
+Proof.
+  induction rules as [|r rs IH]; intros i H; [exact H|].
+  rewrite logged_cons, map_app in H. simpl. rewrite map_app. apply in_or_app.
+  apply in_app_or in H as [H|H].
+  - left. destruct (path_matches cs path (ru_scope r)); [|contradiction]. eapply filter_ids_subset. exact H.
+  - right. apply IH. exact H.
+Qed.
+
+Lemma NoDup_app_parts {A} (a b : list A) :
+  NoDup (a ++ b) -> NoDup a /\ NoDup b /\ (forall x, In x a -> ~ In x b).
+Proof.
+  induction a as [|x a IH]; intro H.
+  - split; [constructor|]. split; [exact H|]. intros x [].
+  - simpl in H. inversion H as [|y l Hx Hnd]. subst y l. destruct (IH Hnd) as [Ha [Hb Hd]].
+    split; [constructor; [intro Hin; apply Hx; apply in_or_app; now left|exact Ha]|].
+    split; [exact Hb|]. intros z [<-|Hz]; [intro Hin; apply Hx; apply in_or_app; now right|apply Hd; exact Hz].
+Qed.
+
+Lemma idcount_logged cs path : forall rules r e,
+  NoDup (map n_id (flat_map ru_entries rules)) -> In r rules -> In e (ru_entries r) ->
+  idcount (n_id e) (logged cs path rules) =
+  if path_matches cs path (ru_scope r) && should_log cs (n_except e) path then 1%nat else 0%nat.
+Proof.
+  induction rules as [|r0 rs IH]; intros r e Hnd Hr He; [contradiction|].
+  simpl in Hnd. rewrite map_app in Hnd. apply NoDup_app_parts in Hnd as [Ha [Hb Hd]].
+  rewrite logged_cons, idcount_app. destruct Hr as [->|Hr].
+  - assert (Hz : idcount (n_id e) (logged cs path rs) = 0%nat).
+    { apply idcount_none. intro H. apply logged_ids_subset in H.
+      apply (Hd (n_id e)); [apply in_map; exact He|exact H]. }
+    rewrite Hz, Nat.add_0_r. destruct (path_matches cs path (ru_scope r)); [|reflexivity].
+    simpl. apply idcount_one; assumption.
+  - assert (Hz : idcount (n_id e)
+                   (if path_matches cs path (ru_scope r0)
+                    then filter (fun e => should_log cs (n_except e) path) (ru_entries r0) else []) = 0%nat).
+    { apply idcount_none. intro H.
+      assert (H' : In (n_id e) (map n_id (ru_entries r0))).
+      { destruct (path_matches cs path (ru_scope r0)); [eapply filter_ids_subset; exact H|contradiction]. }
+      apply (Hd (n_id e) H'). apply in_map. apply in_flat_map. exists r. split; assumption. }
+    rewrite Hz. simpl. apply IH; assumption.
+Qed.
+
+Lemma find_none_filter {A} (m : A -> bool) : forall l, find m l = None -> filter m l = [].
+Proof.
+  induction l as [|x l IH]; intro H; [reflexivity|]. simpl in *.
+  destruct (m x); [discriminate|]. apply IH. exact H.
+Qed.
+
+(* on a script that returns, the lines are those of [logged], all with one status and size *)
+Lemma log_serve_lines_shape c cs tbl ek rules path ops ret u :
   no_panic ops = true ->
-  NoDup (map n_id (ru_entries r)) ->
+  let '(_, _, p, lines) := log_serve c cs tbl ek rules path ops ret u return Prop in
+  p = false /\ exists st sz, lines = map (fun e => (n_id e, st, sz)) (logged cs path rules).
+Proof.
+  intro Hn.
+  destruct (find (fun r => path_matches cs path (ru_scope r)) rules) as [r|] eqn:Hf.
+  - rewrite (log_serve_found c cs tbl ek rules path ops ret u r Hf Hn).
+    split; [reflexivity|]. eexists. eexists. reflexivity.
+  - unfold log_serve. rewrite Hf. pose proof (run_no_panic c ops (u, rec0) Hn) as Hp.
+    destruct (run c (u, rec0) ops) as [[u' r'] p]. simpl in Hp. subst p.
+    split; [reflexivity|]. exists 0%Z, 0. unfold logged, matching_entries.
+    rewrite (find_none_filter _ rules Hf). reflexivity.
+Qed.
+
+Lemma one_line_per_entry c cs tbl ek rules path ops ret u :
+  no_panic ops = true ->
+  NoDup (map n_id (flat_map ru_entries rules)) ->
   let '(_, _, p, lines) := log_serve c cs tbl ek rules path ops ret u in
   p = false /\
-  (forall e, In e (ru_entries r) ->
-     count_id (n_id e) lines = if should_log cs (n_except e) path then 1%nat else 0%nat) /\
-  (forall i, ~ In i (map n_id (ru_entries r)) -> count_id i lines = 0%nat) /\
+  (forall r e, In r rules -> In e (ru_entries r) ->
+     count_id (n_id e) lines =
+     if path_matches cs path (ru_scope r) && should_log cs (n_except e) path then 1%nat else 0%nat) /\
+  (forall i, ~ In i (map n_id (flat_map ru_entries rules)) -> count_id i lines = 0%nat) /\
   (exists st sz, forall l, In l lines -> snd (fst l) = st /\ snd l = sz).
 Proof.
-  intros Hf Hn Hnd. rewrite (log_serve_found c cs tbl ek rules path ops ret u r Hf Hn).
-  set (s := fst (run c (u, rec0) (ops ++ fallback tbl ek ret))).
-  split; [reflexivity|]. split; [|split].
-  - intros e He. apply (count_one_per_entry (fun e => should_log cs (n_except e) path) _ _ _ e Hnd He).
-  - intros i Hi. apply count_id_none. intro H. apply Hi. eapply filter_ids_subset. exact H.
-  - exists (r_status (snd s)), (logged_size c (snd s)). intros l Hl.
-    apply in_map_iff in Hl as [e [<- _]]. split; reflexivity.
+  intros Hn Hnd. pose proof (log_serve_lines_shape c cs tbl ek rules path ops ret u Hn) as H.
+  destruct (log_serve c cs tbl ek rules path ops ret u) as [[[u' r'] p] lines].
+  destruct H as [Hp [st [sz ->]]]. split; [exact Hp|]. split; [|split].
+  - intros r e Hr He. rewrite count_id_map. apply idcount_logged; assumption.
+  - intros i Hi. rewrite count_id_map. apply idcount_none. intro H. apply Hi.
+    apply logged_ids_subset in H. exact H.
+  - exists st, sz. intros l Hl. apply in_map_iff in Hl as [e [<- _]]. split; reflexivity.
 Qed.
 
 (* ---- logged status and size are what the client got ----------------------------------------- *)
@@ -491,107 +579,71 @@ Proof.
 Qed.
 
 (* ---- directive level: logParse ---------------------------------------------------------------- *)
-Fixpoint own_entries (ds : list directive) (i : nat) : list entry :=
+(* how many lines directive number j of [ds] (numbered from i) owes the request: 1 iff it is the
+   j-th and the request is inside its scope and not excepted by its own list *)
+Fixpoint dcount (cs : bool) (path : bytes) (j : nat) (ds : list directive) (i : nat) : nat :=
   match ds with
-  | [] => []
-  | d :: r => {| n_id := i; n_except := d_except d |} :: own_entries r (S i)
+  | [] => 0%nat
+  | d :: r => ((if owes cs d path && Nat.eqb i j then 1 else 0) + dcount cs path j r (S i))%nat
   end.
 
-Lemma parse_logs_uniform sc : forall ds i es,
-  uniform_scope sc ds ->
-  parse_logs ds i [{| ru_scope := sc; ru_entries := es |}] =
-  [{| ru_scope := sc; ru_entries := es ++ own_entries ds i |}].
+Lemma logged_append_entry cs path j : forall rules sc e,
+  idcount j (logged cs path (append_entry rules sc e)) =
+  (idcount j (logged cs path rules) +
+   (if path_matches cs path sc && should_log cs (n_except e) path && Nat.eqb (n_id e) j then 1 else 0))%nat.
 Proof.
-  induction ds as [|d ds IH]; intros i es Hu.
-  - simpl. rewrite app_nil_r. reflexivity.
-  - simpl. rewrite (Hu d (or_introl eq_refl)). rewrite beq_refl.
-    rewrite IH; [|intros d' Hd'; apply Hu; now right].
-    rewrite <- app_assoc. reflexivity.
+  induction rules as [|r rs IH]; intros sc e.
+  - simpl. rewrite logged_cons. simpl. unfold logged, matching_entries. simpl.
+    destruct (path_matches cs path sc); simpl; [|reflexivity].
+    destruct (should_log cs (n_except e) path); simpl; [|reflexivity].
+    unfold idcount. simpl. destruct (Nat.eqb (n_id e) j); reflexivity.
+  - simpl. destruct (beq (ru_scope r) sc) eqn:E.
+    + apply beq_eq in E. subst sc. rewrite !logged_cons. cbn [ru_scope ru_entries].
+      destruct (path_matches cs path (ru_scope r)); simpl.
+      * rewrite filter_app, !idcount_app. simpl.
+        destruct (should_log cs (n_except e) path); simpl.
+        -- unfold idcount at 2. simpl. destruct (Nat.eqb (n_id e) j); simpl; lia.
+        -- unfold idcount at 2. simpl. lia.
+      * lia.
+    + rewrite !logged_cons, !idcount_app, IH. lia.
 Qed.
 
-Lemma parse_logs_uniform0 sc d ds :
-  uniform_scope sc (d :: ds) ->
-  parse_logs (d :: ds) 0 [] = [{| ru_scope := sc; ru_entries := own_entries (d :: ds) 0 |}].
+Lemma logged_parse_logs cs path j : forall ds i rules,
+  idcount j (logged cs path (parse_logs ds i rules)) =
+  (idcount j (logged cs path rules) + dcount cs path j ds i)%nat.
 Proof.
-  intro Hu. simpl. rewrite (Hu d (or_introl eq_refl)).
-  rewrite parse_logs_uniform; [reflexivity|intros d' Hd'; apply Hu; now right].
+  induction ds as [|d ds IH]; intros i rules; [simpl; lia|].
+  simpl. rewrite IH, logged_append_entry. unfold owes. cbn [n_id n_except]. lia.
 Qed.
 
-Definition own_lines cs path (st : Z) (sz : N) ds i : list line :=
-  map (fun e => (n_id e, st, sz)) (filter (fun e => should_log cs (n_except e) path) (own_entries ds i)).
-
-Lemma own_lines_ids_ge cs path st sz : forall ds i l, In l (own_lines cs path st sz ds i) -> (i <= fst (fst l))%nat.
+Lemma dcount_lt cs path j : forall ds i, (j < i)%nat -> dcount cs path j ds i = 0%nat.
 Proof.
-  induction ds as [|d ds IH]; intros i l H; [contradiction|].
-  unfold own_lines in H. simpl in H.
-  destruct (should_log cs (d_except d) path).
-  - simpl in H. destruct H as [<-|H]; [simpl; lia|]. apply IH in H. lia.
-  - apply IH in H. lia.
+  induction ds as [|d ds IH]; intros i H; [reflexivity|].
+  simpl. assert (E : Nat.eqb i j = false) by (apply Nat.eqb_neq; lia).
+  rewrite E, andb_false_r. rewrite IH; [reflexivity|lia].
 Qed.
 
-Lemma count_id_lt i (ls : list line) : (forall l, In l ls -> (i < fst (fst l))%nat) -> count_id i ls = 0%nat.
+Lemma counts_ok_of_counts cs path : forall ds i ls,
+  (forall j, (i <= j)%nat -> count_id j ls = dcount cs path j ds i) ->
+  counts_ok cs ds i path ls = true.
 Proof.
-  induction ls as [|l ls IH]; intro H; [reflexivity|].
-  unfold count_id in *. simpl. pose proof (H l (or_introl eq_refl)) as Hl.
-  assert (E : Nat.eqb (fst (fst l)) i = false) by (apply Nat.eqb_neq; lia).
-  rewrite E. apply IH. intros l' Hl'. apply H. now right.
+  induction ds as [|d ds IH]; intros i ls H; [reflexivity|].
+  simpl. apply andb_true_iff. split.
+  - rewrite (H i (le_n i)). simpl. rewrite Nat.eqb_refl, andb_true_r.
+    rewrite (dcount_lt cs path i ds (S i) (le_n (S i))), Nat.add_0_r. apply Nat.eqb_refl.
+  - apply IH. intros j Hj. rewrite (H j); [|lia]. simpl.
+    assert (E : Nat.eqb i j = false) by (apply Nat.eqb_neq; lia).
+    rewrite E, andb_false_r. reflexivity.
 Qed.
 
-Lemma counts_ok_ext cs path : forall ds j extra ls,
-  (forall l, In l extra -> (fst (fst l) < j)%nat) ->
-  counts_ok cs ds j path (extra ++ ls) = counts_ok cs ds j path ls.
-Proof.
-  induction ds as [|d ds IH]; intros j extra ls H; [reflexivity|].
-  simpl. rewrite count_id_app.
-  assert (E : count_id j extra = 0%nat).
-  { unfold count_id. induction extra as [|x extra IHe]; [reflexivity|].
-    simpl. pose proof (H x (or_introl eq_refl)) as Hx.
-    assert (E : Nat.eqb (fst (fst x)) j = false) by (apply Nat.eqb_neq; lia).
-    rewrite E. apply IHe. intros l Hl. apply H. now right. }
-  rewrite E. simpl. f_equal. apply IH. intros l Hl. apply H in Hl. lia.
-Qed.
-
-Lemma counts_ok_own cs path sc st sz : path_matches cs path sc = true -> forall ds i,
-  uniform_scope sc ds -> counts_ok cs ds i path (own_lines cs path st sz ds i) = true.
-Proof.
-  intros Hm. induction ds as [|d ds IH]; intros i Hu; [reflexivity|].
-  simpl. unfold owes. rewrite (Hu d (or_introl eq_refl)), Hm. simpl.
-  assert (Hu' : uniform_scope sc ds) by (intros d' Hd'; apply Hu; now right).
-  assert (Hz : count_id i (own_lines cs path st sz ds (S i)) = 0%nat).
-  { apply count_id_lt. intros l Hl. apply own_lines_ids_ge in Hl. lia. }
-  unfold own_lines at 1 2. simpl. destruct (should_log cs (d_except d) path) eqn:Es.
-  - simpl. fold (own_lines cs path st sz ds (S i)).
-    assert (Hc : count_id i ((i, st, sz) :: own_lines cs path st sz ds (S i)) = 1%nat).
-    { change ((i, st, sz) :: own_lines cs path st sz ds (S i)) with ([(i, st, sz)] ++ own_lines cs path st sz ds (S i)).
-      rewrite count_id_app, Hz. unfold count_id. simpl. rewrite Nat.eqb_refl. reflexivity. }
-    rewrite Hc. cbn [Nat.eqb andb].
-    change ((i, st, sz) :: own_lines cs path st sz ds (S i)) with ([(i, st, sz)] ++ own_lines cs path st sz ds (S i)).
-    rewrite counts_ok_ext; [apply IH; exact Hu'|].
-    intros l [<-|[]]. simpl. lia.
-  - fold (own_lines cs path st sz ds (S i)). rewrite Hz. simpl. apply IH. exact Hu'.
-Qed.
-
-Lemma counts_ok_nil cs path sc : path_matches cs path sc = false -> forall ds i,
-  uniform_scope sc ds -> counts_ok cs ds i path [] = true.
-Proof.
-  intros Hm. induction ds as [|d ds IH]; intros i Hu; [reflexivity|].
-  simpl. unfold owes. rewrite (Hu d (or_introl eq_refl)), Hm. simpl.
-  apply IH. intros d' Hd'. apply Hu. now right.
-Qed.
-
-Lemma one_line_per_log_partial c cs tbl ek sc ds path ops ret u :
-  uniform_scope sc ds -> no_panic ops = true ->
+Lemma one_line_per_log c cs tbl ek ds path ops ret u :
+  no_panic ops = true ->
   counts_ok cs ds 0 path (snd (log_serve c cs tbl ek (parse_logs ds 0 []) path ops ret u)) = true.
 Proof.
-  intros Hu Hn. destruct ds as [|d ds].
-  - reflexivity.
-  - rewrite (parse_logs_uniform0 sc d ds Hu).
-    destruct (path_matches cs path sc) eqn:Hm.
-    + rewrite (log_serve_found c cs tbl ek _ path ops ret u
-                 {| ru_scope := sc; ru_entries := own_entries (d :: ds) 0 |}); [|simpl; rewrite Hm; reflexivity|exact Hn].
-      cbn [snd ru_entries]. apply (counts_ok_own cs path sc _ _ Hm (d :: ds) 0 Hu).
-    + rewrite log_serve_not_found; [|simpl; rewrite Hm; reflexivity].
-      apply (counts_ok_nil cs path sc Hm (d :: ds) 0 Hu).
+  intro Hn. pose proof (log_serve_lines_shape c cs tbl ek (parse_logs ds 0 []) path ops ret u Hn) as H.
+  destruct (log_serve c cs tbl ek (parse_logs ds 0 []) path ops ret u) as [[[u' r'] p] lines].
+  destruct H as [_ [st [sz ->]]]. cbn [snd].
+  apply counts_ok_of_counts. intros j _. rewrite count_id_map, logged_parse_logs. reflexivity.
 Qed.
 
 (* ---- the whole site ---------------------------------------------------------------------------- *)
@@ -673,12 +725,12 @@ Proof.
   reflexivity.
 Qed.
 
-Lemma site_one_line_per_log_partial c cs tbl (haserr hdrw : bool) sc ds path ops ret :
-  uniform_scope sc ds -> (haserr = true \/ no_panic ops = true) ->
+Lemma site_one_line_per_log_partial c cs tbl (haserr hdrw : bool) ds path ops ret :
+  (haserr = true \/ no_panic ops = true) ->
   counts_ok cs ds 0 path (snd (site_serve c cs tbl haserr hdrw ds path ops ret)) = true.
 Proof.
-  intros Hu Hp. rewrite site_lines. cbv zeta.
-  apply one_line_per_log_partial with (sc := sc); auto.
+  intros Hp. rewrite site_lines. cbv zeta.
+  apply one_line_per_log.
   apply inner_flat_no_panic. exact Hp.
 Qed.
 
